@@ -426,6 +426,7 @@ VIOLATIONS = [
     "repeat_without_previous", "repeat_in_quoted", "missing_options", "options_not_first",
     "forbidden_row_kind", "triple_outside_graph", "unsupported_version", "unsupported_physical_type",
     "graph_start_without_term", "empty_row", "prefix_ref_disabled_table", "implicit_entry_id_past_last_slot",
+    "datatype_ref_unfilled", "prefix_ref_unfilled",
 ]
 
 
@@ -487,6 +488,29 @@ def inject(r: random.Random, stream: dict, kind: str):
                 if not free:
                     continue
                 iri.name_id = r.choice(free)
+            return rows, i
+        return None
+    if kind in ("datatype_ref_unfilled", "prefix_ref_unfilled"):
+        which, size = ("datatype", d_sz) if kind == "datatype_ref_unfilled" else ("prefix", p_sz)
+        r.shuffle(stmt_idx)
+        for i in stmt_idx:
+            site = _first_literal_with_dt(body(rows[i])) if which == "datatype" else _first_iri(body(rows[i]))
+            if site is None:
+                continue
+            # a slot within the declared size that no entry row before position i has filled
+            filled, last = set(), 0
+            for x in rows[:i]:
+                if x.WhichOneof("row") == which:
+                    idx = getattr(x, which).id or last + 1
+                    filled.add(idx)
+                    last = idx
+            free = [k for k in range(1, size + 1) if k not in filled]
+            if not free:
+                continue
+            if which == "datatype":
+                site.datatype = r.choice(free)
+            else:
+                site.prefix_id = r.choice(free)
             return rows, i
         return None
     if kind in ("datatype_ref_zero", "datatype_ref_beyond_size"):
